@@ -19,11 +19,14 @@
 
   PARTIAL: that the *programs* `tree_stats()` / `validate()` sum these counters without panic
   (loops over slots with the saturating correction of F9) is carried by the correspondence; the
-  statement "at the end of every concurrent interleaving" needs the concurrent invariants. Carried by the correspondence: statistics, `stats_at`, `is_free`,
+  statement "at the end of every concurrent interleaving" is a theorem for the lower level
+  (`conc_quiescent_counters_exact`: once all threads are done every huge-entry counter equals the
+  number of zero bits of its bitfield again) and not for the tree counters. Carried by the correspondence: statistics, `stats_at`, `is_free`,
   `tree_stats` and `validate()` compared with the ownership model after every call of every
   sequential history and at the quiescent end of every explored interleaving.
 -/
 import LLFreeV.Proofs.UpperInit
+import LLFreeV.Proofs.OwnLowerThreads
 namespace LLFree.C04
 open LLFree Prog
 
@@ -119,5 +122,16 @@ theorem fast_counters_exact (c : Cfg) (H : Nat → Prop) (m : Mem) (inv : UpperI
   refine ⟨by omega, fun hn => ?_⟩
   have h2 := inv.counterEq i t ht hn
   omega
+
+/-- **Quiescent end of every interleaving (lower level)**: when all threads have finished their
+    calls, every huge-entry counter is exactly the number of free frames of its bitfield. -/
+theorem conc_quiescent_counters_exact (c : Cfg) (ok : GeomOk16 c.geom) (m : Mem) (inv : LowerInv c m)
+    (n retries : Nat) (cmds : Nat → List LCmd) (sched : List Nat) (hsched : ∀ k ∈ sched, k < n)
+    (hdone : ∀ k, k < n → ∃ held, ((concRun sched (m, fun k => Th.at (runL c.geom retries (cmds k) ⟨[], []⟩))).2 k).step
+      (concRun sched (m, fun k => Th.at (runL c.geom retries (cmds k) ⟨[], []⟩))).1 = .done held) (h : Nat) :
+    let m' := (concRun sched (m, fun k => Th.at (runL c.geom retries (cmds k) ⟨[], []⟩))).1
+    Huge.isHuge (m'.hugeE h) = false → m'.hugeE h = zerosIn c.geom m' h := by
+  obtain ⟨_, hok⟩ := lower_threads_safe ok m inv n retries cmds sched hsched
+  exact hok.quiescent hdone h
 
 end LLFree.C04
